@@ -8,7 +8,15 @@ ASM = "rspirv::binary::assemble"
 
 
 def consts_of(ctx, mod):
-    return {c["name"]: int_of(c["init"]) for c in ctx.rspirv.items(mod, "const")}
+    """integer constants visible by name in `mod`: its own, and (imported ones) those whose name has one value in the whole crate"""
+    from ..symeval import _const_items
+    out = {}
+    for name, items in ctx.memo("const_items", lambda: _const_items(ctx)).items():
+        vals = {int_of(x["init"]) for x in items}
+        if len(vals) == 1 and None not in vals:
+            out[name] = vals.pop()
+    out.update({c["name"]: int_of(c["init"]) for c in ctx.rspirv.items(mod, "const") if int_of(c["init"]) is not None})
+    return out
 
 
 def is_self_field(n, field):
